@@ -10,6 +10,7 @@ from .. import codec, catalogue
 from ..core import Prop, Case, obs_exc
 
 SMALL, BIG = 100, 10000
+EXTRACT_FORMS = ('csv', 'tsv', 'pickle', 'text', 'jsonl', 'csv:header', 'csv:pipe', 'text:nostrip', 'text:strip', 'text:header')
 KS = (1, 2, 3, 4, 6)
 
 
@@ -148,7 +149,7 @@ class C02(Prop):
         for _ in range(20 if tier == 'quick' else 300):
             stages = tuple(rng.choice(singles) for _ in range(rng.choice([2, 3])))
             yield Case('lazy', ('pipe', stages, rng.randrange(1 << 20)))
-        for fmt in ('csv', 'tsv', 'pickle', 'text', 'jsonl'):
+        for fmt in EXTRACT_FORMS:
             for _ in range(reps):
                 yield Case('lazy', ('extract', fmt, rng.randrange(1 << 20)))
         for nm in ('unpackdict', 'fromdicts', 'fromdicts:generator'):
@@ -248,7 +249,8 @@ class C02(Prop):
                     if 'drop' not in flags and 'build' not in flags and r2[k] > k + 2 + 2 * e['nsrc']:
                         ok = False
                         notes.append('k=%d: %d rows pulled (more than k + small constant)' % (k, r2[k]))
-                    if g2 is not None and probe is None:
+                    # ('nojudge': a second source enters through an argument the generator's skeleton does not track)
+                    if g2 is not None and probe is None and 'nojudge' not in flags:
                         judged.append((g2, k, r2[k]))
                 elif k in r1 and k not in r2:
                     ok = False
@@ -285,16 +287,22 @@ class C02(Prop):
         import petl as etl
         rng = random.Random(seed)
         rows = [('foo', 'bar')] + [(rng.choice(['a', 'bb', 'ccc']), str(rng.randrange(1000))) for _ in range(20000)]
-        if fmt in ('csv', 'tsv'):
-            sep = ',' if fmt == 'csv' else '\t'
+        if fmt in ('csv', 'tsv', 'csv:header', 'csv:pipe'):
+            sep = {'csv': ',', 'tsv': '\t', 'csv:header': ',', 'csv:pipe': '|'}[fmt]
             data = ''.join(sep.join(r) + '\r\n' for r in rows).encode('utf-8')
-            mk = (lambda s: etl.fromcsv(s, encoding='utf-8')) if fmt == 'csv' else (lambda s: etl.fromtsv(s, encoding='utf-8'))
+            mk = {'csv': lambda s: etl.fromcsv(s, encoding='utf-8'),
+                  'tsv': lambda s: etl.fromtsv(s, encoding='utf-8'),
+                  'csv:header': lambda s: etl.fromcsv(s, encoding='utf-8', header=['x', 'y']),
+                  'csv:pipe': lambda s: etl.fromcsv(s, encoding='utf-8', delimiter='|')}[fmt]
         elif fmt == 'pickle':
             data = b''.join(pickle.dumps(r, protocol=2) for r in rows)
             mk = lambda s: etl.frompickle(s)   # noqa
-        elif fmt == 'text':
+        elif fmt.startswith('text'):
             data = ''.join(' '.join(r) + '\n' for r in rows).encode('utf-8')
-            mk = lambda s: etl.fromtext(s, encoding='utf-8')   # noqa
+            mk = {'text': lambda s: etl.fromtext(s, encoding='utf-8'),
+                  'text:nostrip': lambda s: etl.fromtext(s, encoding='utf-8', strip=False),
+                  'text:strip': lambda s: etl.fromtext(s, encoding='utf-8', strip='a\n'),
+                  'text:header': lambda s: etl.fromtext(s, encoding='utf-8', header=['line'])}[fmt]
         else:
             data = ''.join(json.dumps({'foo': r[0], 'bar': r[1]}) + '\n' for r in rows[1:]).encode('utf-8')
             mk = lambda s: etl.fromjson(s, lines=True)   # noqa
@@ -414,7 +422,7 @@ class C02(Prop):
             if a[0] == 'pipe':
                 return len(a) == 3 and 1 <= len(a[1]) <= 3 and all(n in names for n in a[1]) and isinstance(a[2], int)
             if a[0] == 'extract':
-                return a[1] in ('csv', 'tsv', 'pickle', 'text', 'jsonl') and len(a) == 3 and isinstance(a[2], int)
+                return a[1] in EXTRACT_FORMS and len(a) == 3 and isinstance(a[2], int)
             if a[0] == 'sample':
                 return a[1] in ('unpackdict', 'fromdicts', 'fromdicts:generator') and len(a) == 3 and isinstance(a[2], int)
             if a[0] == 'vis':
